@@ -18,6 +18,7 @@ mod store;
 mod store_ops;
 mod store_run;
 mod dbg;
+mod conc;
 
 use util::Ctx;
 
@@ -59,6 +60,7 @@ fn main() {
         "dbg" => dbg::run(&mut ctx),
         "crash" => store_run::run_crash(&mut ctx),
         "space" => store_run::run_space(&mut ctx),
+        "conc" => conc::run(&mut ctx),
         "c17" => seg::run_c17(&mut ctx),
         "c18" => seg::run_c18(&mut ctx),
         other => { eprintln!("unknown family {other}"); std::process::exit(2); }
